@@ -127,6 +127,7 @@ class NetRun:
         self.stopped = False
         self.trace = []  # compact per-op trace for samples
         self.poisoned = set()  # nodes whose desired state holds a value the wire cannot carry
+        self.stopping = False
         self.last_change_t = -1.0
         self.last_change_kind = None
         self.last_save_t = -2.0
@@ -155,12 +156,27 @@ class NetRun:
         self.cb_raise = set(cfg.get("cb_raise", ()))
         self.world.event_hook = self._event_hook
         self.fs.trace = self._fs_trace
+        self.tick_times = []
+        self.saves_running = 0
+        self.world.sim.save_hook = self._save_hook
 
     # ------------------------------------------------------------------ plumbing
     def _fs_trace(self, opname, path):
         if opname == "rename" and ".tmp." in path:
             self.last_save_t = self.world.sim.now
             self.probe("saves_completed")
+
+    def _save_hook(self, phase, persistence, exc):
+        sim = self.world.sim
+        role = sim.current.role if sim.current is not None else "?"
+        if phase == "begin":
+            if role in ("timer", "executor") and not self.stopping:
+                self.tick_times.append(sim.now)
+            if self.saves_running and persistence.need_save:
+                self.probe("save_started_while_another_running")
+            self.saves_running += 1
+        else:
+            self.saves_running -= 1
 
     def probe(self, name, n=1):
         self.probes[name] = self.probes.get(name, 0) + n
@@ -725,6 +741,7 @@ class NetRun:
             self.probe("stop_after_unsaved_change" if self.last_change_t > self.last_save_t else "stop_with_nothing_unsaved")
             if self.last_change_t > self.last_save_t and self.last_change_kind:
                 self.last_kinds.add(self.last_change_kind)
+        self.stopping = True
         try:
             world.stop()
         except kernel.SimAbort:
@@ -733,6 +750,7 @@ class NetRun:
             self.add(vio("stop-raised", {"exc": repr(exc)}, exc=type(exc).__name__))
             self.clean_history = False
         world.settle()
+        self.stopping = False
         world.advance(0.1)
         self.out_lines()
         self.health()
@@ -798,6 +816,15 @@ class NetRun:
                 world.sim.wall_skew += op[1]
                 self.faults["clock_jump"] = self.faults.get("clock_jump", 0) + 1
             elif kind == "restart":
+                self.op_restart()
+            elif kind == "stop_at_tick":
+                # stop() issued at the very instant a scheduled save begins: whether the two
+                # overlap is up to the scheduler (pre-emptive policies)
+                if self.tick_times:
+                    dt = self.tick_times[-1] + 10.0 - world.sim.now
+                    if dt > 0:
+                        world.sim.sleep(dt)
+                    self.probe("stop_at_tick")
                 self.op_restart()
             elif kind == "adopt":
                 ids = self.model.handed_out
